@@ -32,6 +32,8 @@ fn cap(c: &Capability) -> V {
         Capability::AG_AIRBORNE => 5,
         Capability::AG_UNCERTAIN2 => 6,
         Capability::AG_UNCERTAIN3 => 7,
+        #[allow(unreachable_patterns)]
+        _ => 0xffff,
     })
 }
 
@@ -46,6 +48,8 @@ fn dr(d: &DownlinkRequest) -> V {
         DownlinkRequest::CommBBroadcastMsg1 => 4,
         DownlinkRequest::CommBBroadcastMsg2 => 5,
         DownlinkRequest::Unknown(v) => 0x100 + u64::from(*v),
+        #[allow(unreachable_patterns)]
+        _ => 0xffff,
     })
 }
 
@@ -57,6 +61,8 @@ fn sign(s: &Sign) -> V {
     V::U(match s {
         Sign::Positive => 0,
         Sign::Negative => 1,
+        #[allow(unreachable_patterns)]
+        _ => 0xffff,
     })
 }
 
@@ -124,6 +130,8 @@ fn me(o: &mut Obs, m: &ME) {
                     adsb_deku::adsb::TypeCoding::C => "C",
                     adsb_deku::adsb::TypeCoding::B => "B",
                     adsb_deku::adsb::TypeCoding::A => "A",
+                    #[allow(unreachable_patterns)]
+                    _ => "?",
                 }
                 .to_string()),
             ));
@@ -139,6 +147,8 @@ fn me(o: &mut Obs, m: &ME) {
                 V::U(match s.s {
                     StatusForGroundTrack::Invalid => 0,
                     StatusForGroundTrack::Valid => 1,
+                    #[allow(unreachable_patterns)]
+                    _ => 0xffff,
                 }),
             ));
             o.push(("me.surf.trk", V::U(u64::from(s.trk))));
@@ -159,6 +169,8 @@ fn me(o: &mut Obs, m: &ME) {
                     SurveillanceStatus::PermanentAlert => 1,
                     SurveillanceStatus::TemporaryAlert => 2,
                     SurveillanceStatus::SPICondition => 3,
+                    #[allow(unreachable_patterns)]
+                    _ => 0xffff,
                 }),
             ));
             o.push(("me.pos.saf", V::U(u64::from(a.saf_or_imf))));
@@ -195,12 +207,16 @@ fn me(o: &mut Obs, m: &ME) {
                     o.push(("me.vel.kind", V::U(5)));
                     o.push(("me.vel.reserved22", V::U(u64::from(*r))));
                 }
+                #[allow(unreachable_patterns)]
+                _ => o.push(("variant-unknown-to-the-reference", V::U(1))),
             }
             o.push((
                 "me.vel.vrate_src",
                 V::U(match v.vrate_src {
                     VerticalRateSource::BarometricPressureAltitude => 0,
                     VerticalRateSource::GeometricAltitude => 1,
+                    #[allow(unreachable_patterns)]
+                    _ => 0xffff,
                 }),
             ));
             o.push(("me.vel.vrate_sign", sign(&v.vrate_sign)));
@@ -218,6 +234,8 @@ fn me(o: &mut Obs, m: &ME) {
                     AircraftStatusType::ACASRaBroadcast => V::U(2),
                     // the enum folds 3..=7: any of them is "reserved"
                     AircraftStatusType::Reserved => V::S("reserved".into()),
+                    #[allow(unreachable_patterns)]
+                    _ => V::U(0xffff),
                 },
             ));
             o.push((
@@ -231,6 +249,8 @@ fn me(o: &mut Obs, m: &ME) {
                     EmergencyState::UnlawfulInterference => 5,
                     EmergencyState::DownedAircraft => 6,
                     EmergencyState::Reserved2 => 7,
+                    #[allow(unreachable_patterns)]
+                    _ => 0xffff,
                 }),
             ));
             o.push(("me.status.squawk", V::U(u64::from(s.squawk))));
@@ -309,8 +329,12 @@ fn me(o: &mut Obs, m: &ME) {
                 OperationStatus::Reserved(..) => {
                     o.push(("me.ops.st", V::S("reserved".into())));
                 }
+                #[allow(unreachable_patterns)]
+                _ => o.push(("variant-unknown-to-the-reference", V::U(1))),
             }
         }
+        #[allow(unreachable_patterns)]
+        _ => o.push(("variant-unknown-to-the-reference", V::U(1))),
     }
 }
 
@@ -356,6 +380,8 @@ fn bds(o: &mut Obs, b_: &BDS) {
         BDS::Unknown((id, _)) => {
             o.push(("mb.unknown_id", V::U(u64::from(*id))));
         }
+        #[allow(unreachable_patterns)]
+        _ => o.push(("variant-unknown-to-the-reference", V::U(1))),
     }
 }
 
@@ -373,6 +399,8 @@ pub fn df_code(frame: &Frame) -> u8 {
         DF::CommBAltitudeReply { .. } => 20,
         DF::CommBIdentityReply { .. } => 21,
         DF::ModeSExtendedSquitter { df, .. } => *df,
+        #[allow(unreachable_patterns)]
+        _ => 0xff,
     }
 }
 
@@ -459,6 +487,8 @@ pub fn project(frame: &Frame) -> Obs {
             o.push(("x.data", V::U(*adsb_data)));
             o.push(("pi", icao(parity)));
         }
+        #[allow(unreachable_patterns)]
+        _ => o.push(("variant-unknown-to-the-reference", V::U(1))),
     }
     o
 }
